@@ -62,6 +62,11 @@ FIXED = {
     "sibling-defers-stream-in-last": fixed('query Q { a ... @defer(label:"B") { b } ... @defer(label:"A") { slow l @stream(initialCount:1, label:"S") } }',
                                            {"A": "", "B": "", "S": ""}, force={"a": ("value", S), "slow": ("value", G), "b": ("value", G), "l": ("value", S)},
                                            lists={"l": (3, True, None)}),
+    # a stream created inside a deferred fragment whose items hold a deferred fragment beside plain fields
+    "defer-stream-defer": fixed('query Q { a ... @defer(label:"O") { ol @stream(initialCount:1, label:"S") { x ... @defer(label:"I") { y } } } }',
+                                {"O": "", "S": "", "I": ""}, force={"a": ("value", S), "ol": ("value", S)}, lists={"ol": (3, False, None)}, p_gate=0.0),
+    "defer-stream-defer-async": fixed('query Q { a ... @defer(label:"O") { ol @stream(initialCount:0, label:"S") { x ... @defer(label:"I") { y } } } }',
+                                      {"O": "", "S": "", "I": ""}, force={"a": ("value", S), "ol": ("value", G)}, lists={"ol": (2, True, None)}),
     # one execution group shared by two nested fragments that sit under different enclosing fragments; one of the enclosing
     # fragments fails before the other completes
     "shared-task-under-two-parents-one-fails": fixed(
